@@ -16,5 +16,8 @@ sys.path.insert(0, ".")
 from pbt import env, run
 e = env.base_env()
 run.ensure_warm(e)
+# second cache: kernels compiled with numba parallelisation switched off (used by C18's environment differential)
+e2 = dict(e, PANDORA_NUMBA_PARALLEL="False", NUMBA_CACHE_DIR=env.cache_dir("False"))
+run.ensure_warm(e2)
 print("setup ok: hypothesis", hypothesis.__version__, "tree", env.tree_hash())
 PY
